@@ -17,7 +17,6 @@ package redis
 import (
 	"errors"
 	"fmt"
-	"regexp"
 	"strconv"
 	"strings"
 	"time"
@@ -358,7 +357,7 @@ func nextScanArgument(cmd string, args Arguments) (ScanOption, error) {
 			if err != nil {
 				return opt, err
 			}
-			opt.MatchPattern, err = regexp.Compile(pattern)
+			opt.MatchPattern, err = glob.Compile(pattern)
 			if err != nil {
 				return opt, newInvalidArgumentError(cmd, "pattern", err)
 			}
